@@ -548,10 +548,12 @@ class UseSpecSingleChoice(_UseSpec):
 
 
 # ---------------------------------------------------------------------------
-# DNA.from_fn(spec, fn): whatever the callback answers, the DNA handed out has
-# passed the validator of the spec it was asked for (so a callback cannot
-# smuggle a non-member into the library), and an index-list answer is turned
-# into exactly those choices with the sub-DNAs of the chosen candidates.
+# DNA.from_fn(spec, fn): whatever the callback answers, the DNA handed out is
+# bound to the spec that was asked by use_spec (contract DNAFromFnBinds; binding
+# accepts exactly the members: contracts _UseSpec above), so a callback cannot
+# smuggle a non-member into the library; and the generating recursion
+# (DNA._from_fn) turns an index-list answer into exactly those choices with the
+# sub-DNAs of the chosen candidates, asking the callback once per point.
 #
 # One level, the recursive calls by the function's own contract (partial
 # correctness): a recursive `from_fn(sub, fn)` returns a DNA validated for
@@ -607,11 +609,14 @@ class DNAFromFn(Contract):
     def rec(interp, frame, args, kwargs):
       a = [interp.resolve(x) for x in args]
       sub = a[-2]
+      if sub is me._spec:
+        # the generating helper called for the asked spec itself: its real body
+        return interp.call_function(geno.DNA._from_fn.__func__, [geno.DNA] + a[-2:], {})
       # induction hypothesis: the DNA REC(sub) has passed sub's validator
       r = absobj.ref(geno.DNA, REC(absobj.ref_id(sub)), _dna_lazy)
-      interp.path.event('rec', 'DNA.from_fn', (sub, a[-1], r))
+      interp.path.event('rec', 'DNA._from_fn', (sub, a[-1], r))
       return r
-    policy.contracts[f'{GB}:DNA.from_fn'] = rec
+    policy.contracts[f'{GB}:DNA._from_fn'] = rec
 
     def validate(interp, frame, args, kwargs):
       sp, dna = interp.resolve(args[0]), interp.resolve(args[1])
@@ -630,10 +635,18 @@ class DNAFromFn(Contract):
     policy.handlers[('new', geno.DNA)] = new_dna
     policy.handlers[('new', pg.KeyPath)] = lambda interp, a, k, f: SAny('KeyPath')
     policy.handlers[('identical',)] = absobj.identical_handler
+
+    def use_spec(interp, frame, args, kwargs):
+      # binding validates (contracts _UseSpec): it may refuse
+      interp.path.event('bind', 'DNA.use_spec', [interp.resolve(x) for x in args])
+      if interp.path.decide(2, 'binding-refuses') == 1:
+        raise I.PyRaise(ExcVal(ValueError, ('invalid',)))
+      return args[0]
+    policy.contracts[f'{GB}:DNA.use_spec'] = use_spec
     # the loop over the elements of a space (any number of them): after i
     # iterations `children` holds, in order, the DNAs of the first i elements
     from pyvc import loops
-    loops.install(policy, 'DNA.from_fn', 0, self.inv_children_of_the_first_elements,
+    loops.install(policy, 'DNA._from_fn', 0, self.inv_children_of_the_first_elements,
                   havoc={'children': lambda b, name: absobj.ref_seq(b, name, geno.DNA, _dna_lazy)},
                   name='elements-loop')
 
@@ -655,17 +668,20 @@ class DNAFromFn(Contract):
     # classmethod: call the underlying function with cls first
     return interp.call_function(pyf, [geno.DNA, args['dna_spec'], args['generator_fn']], {})
 
-  def trace_result_passed_the_validator_of_the_asked_spec(self, events, outcome, interp, env):
+  def trace_result_passed_a_validator_of_the_asked_spec(self, events, outcome, interp, env):
+    """Membership guard: what is handed out went through spec.validate or
+    through dna.use_spec(spec) (which validates) for the spec that was asked --
+    or is, for a space of one element, that element's DNA by the function's own
+    contract."""
     if outcome[0] != 'return':
       return True
     r = interp.resolve(outcome[1])
     for e in events:
       if e.kind == 'validate' and e.data[0] is self._spec and e.data[1] is r:
         return True
+      if e.kind == 'bind' and e.data[0] is r and e.data[1] is self._spec:
+        return True
     if self.variant == 'space' and absobj.ref_id(r) is not None:
-      # a space with exactly one element hands out that element's DNA, which the
-      # recursive call validated for the element (Space.validate with one element
-      # is the element's validator: contract Space.validate)
       return z3.And(self._elems.len == 1, absobj.ref_id(r) == REC(z3.Select(self._elems.arr, 0)))
     return False
 
